@@ -13,6 +13,13 @@ EPY = ['L{x}', 'L{a.b<c.d>}', 'C{code}', 'B{bold}', 'I{it}', 'U{http://x.y}', 'U
        '@param a: x\n\n  Deeper\n  ======\n  body', 'Intro\n\n    @note: n\n\nAfter the fields.\n\nHead\n====', '@type a: int\nHead\n====\n',
        '   >>> x = 1\n  dedented', '    >>> a\n    b\n c', '  - item\n >>> x', '>>> a\nnot blank', 'Subsub\n~~~~', '>>> 1+1\n2', '>>> x',
        'lit::\n    block\n  more', '::', 'text::', '    indented', '\tTab', 'p1\n\np2', 'E{', 'E{nope}', 'S{nope}', 'L{a<b}', 'U{<}', 'G{graph x}', '@param *args: x', '@param **kw: y']
+# the same heading several times in one docstring (identifiers must be made distinct), long headings, headings without any identifier character
+_LONG = 'A rather long heading that reads like a whole sentence about many different things'
+DUPHEAD = ['Dup\n===\n\na\n\nDup\n===\n\nb', f'{_LONG}\n{"=" * len(_LONG)}\n\ntext\n\n{_LONG}\n{"=" * len(_LONG)}\n\nmore',
+           f'{_LONG} one\n{"=" * (len(_LONG) + 4)}\n\ntext\n\n{_LONG} two\n{"=" * (len(_LONG) + 4)}\n\nmore\n\n{_LONG} one\n{"-" * (len(_LONG) + 4)}\n\nend',
+           '???\n===\n\nx\n\n???\n===\n\ny\n\n!!!\n---\n\nz', 'Top\n===\n\nSub\n---\n\na\n\nTop\n===\n\nSub\n---\n\nb\n\nSub\n---\n\nc',
+           'Dup\n===\n\nDup 1\n=====\n\nDup\n===\n\nDup-1\n=====\n\nx', 'x ' * 40 + '\n' + '=' * 80 + '\n\nt\n\n' + 'x ' * 40 + '\n' + '=' * 80 + '\n\nu']
+EPY += DUPHEAD
 RST = ['*em*', '**strong**', '``lit``', '`ref`', '`text <http://x>`_', '`text <a.b>`', ':py:class:`X`', ':role:`x`', ':unknownrole:`x`', '|sub|', '[1]_', '[#]_', '[*]_', 'name_',
        '_`target`', '.. _t: http://x', '.. [1] foot', '.. note:: n', '.. warning::\n   w', '.. unknowndir:: x', '.. code:: python\n\n   x = 1', '.. code-block:: py\n\n  y', '.. math:: x',
        '.. image:: nope.png', '.. include:: /nonexistent', '.. raw:: html\n\n   <b>x</b>', '.. raw:: html\n   :file: /nonexistent', '.. versionadded:: 1.0', '.. deprecated:: 2\n   use x',
@@ -20,6 +27,7 @@ RST = ['*em*', '**strong**', '``lit``', '`ref`', '`text <http://x>`_', '`text <a
        ':returns: r', ':rtype: `x`', ':raises E: e', ':ivar v: d', ':field', ':field: ', '::\n\n  lit', '>>> 1\n1', '* b1\n* b2', '1. e\n2. f', '#. auto', 'term\n  def', '-o  opt',
        '| line\n| block', '\\', '\\*', '*', '**', '`', '``', '|', '_', '__', 'a_b_', '.. ', '..', '.. |s| replace:: t', '.. class:: c', '.. role:: r', '.. default-role:: emphasis',
        '.. target-notes::', '.. sectnum::', '.. header:: h', '.. csv-table::\n   :header: a\n\n   1', '.. list-table::\n\n   * - x', '.. parsed-literal::\n\n  *x*', '.. py:function:: f', '.. date::']
+RST += DUPHEAD
 GOOGLE = ['Args:\n    a: d', 'Args:\n    a (int): d\n    b (str, optional): e', 'Arguments:\n  *args: x\n  **kw: y', 'Returns:\n    r', 'Returns:\n    int: r', 'Yields:\n    y',
           'Raises:\n    E: e', 'Raise:\n    E', 'Attributes:\n    v (int): d', 'Note:\n    n', 'Notes:\n  n', 'Example:\n    >>> 1', 'Examples:\n    x::\n\n        lit', 'See Also:\n    a, b',
           'Todo:\n    t', 'Warning:\n    w', 'Warns:\n    W: w', 'Keyword Args:\n    k: d', 'Other Parameters:\n    o: d', 'Methods:\n    m: d', 'References:\n    r', 'Args:', 'Args:\n',
